@@ -1246,6 +1246,9 @@ type c16ChangeCase struct {
 	N      int    `json:"n"`               // size of the initial set Ring[0..N)
 	N2     int    `json:"n2"`              // size of the set recorded on the chain, Ring[N..N+N2) (tdpos: N2 = N)
 	Below  bool   `json:"below,omitempty"` // tdpos: also candidates one block BELOW the tip (a stale fork crossing the term boundary)
+	// Tied: tdpos - all elected candidates hold the same number of ballots. Which of them gets which position is not
+	// asserted; asserted is that two nodes, asked repeatedly, never accept two different producers for one instant.
+	Tied bool `json:"tied,omitempty"`
 }
 
 // c16RunChange: oracle = accepted => the proposer is the member, at the position the schedule gives for the block's OWN
@@ -1270,7 +1273,11 @@ func c16RunChange(k c16ChangeCase, o *c16Obs) *c16Fail {
 		nominate := map[string]map[string]int64{}
 		for i, a := range newSet {
 			nominate[a] = map[string]int64{a: 1}
-			vb, _ := json.Marshal(map[string]int64{"voter": int64(1000 - i)})
+			ballots := int64(1000 - i)
+			if k.Tied {
+				ballots = 1000
+			}
+			vb, _ := json.Marshal(map[string]int64{"voter": ballots})
 			leg.snap["_vote_"+a] = vb
 		}
 		nb, _ := json.Marshal(nominate)
@@ -1278,6 +1285,14 @@ func c16RunChange(k c16ChangeCase, o *c16Obs) *c16Fail {
 		inst, err := c16NewPlugin("tdpos", c16TdposConf(kc, initSet), leg, hx.Ring[0])
 		if err != nil {
 			return c16Failf("setup", "%v", err)
+		}
+		insts := []base.ConsensusImplInterface{inst}
+		if k.Tied {
+			inst2, err := c16NewPlugin("tdpos", c16TdposConf(kc, initSet), leg, hx.Ring[1]) // a second node on the same ledger
+			if err != nil {
+				return c16Failf("setup", "%v", err)
+			}
+			insts = append(insts, inst2, inst, inst2)
 		}
 		vs := tdpos.VerifScheduleOf(inst)
 		entitled := func(pos, slot int64) bool { return !(slot < 0 || slot >= kc.BlockNum || pos >= kc.ProposerNum) }
@@ -1315,7 +1330,9 @@ func c16RunChange(k c16ChangeCase, o *c16Obs) *c16Fail {
 				heights = append(heights, 3)
 			}
 			for _, h := range heights {
-				for _, who := range cands {
+				producer := "" // Tied: the one producer accepted for this instant so far
+				for ci := 0; ci < len(cands)*len(insts); ci++ {
+					who, inst := cands[ci%len(cands)], insts[ci/len(cands)]
 					st, _ := json.Marshal(map[string]int64{"curTerm": term, "curBlockNum": slot})
 					blk := &c16Block{proposer: who, height: h, id: c16Hash(fmt.Sprintf("c16-cand-%d-%d-%s", h, t, who)), pre: leg.chain[h-1].id, ts: t, storage: st}
 					ok, _ := inst.CheckMinerMatch(xc, blk)
@@ -1327,6 +1344,21 @@ func c16RunChange(k c16ChangeCase, o *c16Obs) *c16Fail {
 					set := initSet
 					if term >= 2 {
 						set = newSet
+					}
+					if k.Tied && term >= 2 && h >= 4 && entitled(pos, slot) {
+						member := false
+						for _, a := range newSet {
+							member = member || a == who
+						}
+						if member && (producer == "" || producer == who) {
+							producer = who
+							o.tag("tdpos-change:accepted-from-tied-election")
+							continue
+						}
+						if member {
+							return c16Failf("two-producers-one-instant", "tdpos blocks of %q and of %q with the same timestamp origin+%dms = (term %d, pos %d, slot %d) at height %d were both accepted (evaluation %d of two nodes asked twice each; elected set %v, every candidate with 1000 ballots)",
+								producer, who, (t-init)/c16Ms, term, pos, slot, h, ci/len(cands), newSet)
+						}
 					}
 					if !entitled(pos, slot) || set[pos] != who {
 						kind := "accept-elected"
@@ -1393,6 +1425,9 @@ func c16Changes(t *testing.T, c *hx.Collector) {
 	var cases []c16ChangeCase
 	for n := 1; n <= 4; n++ {
 		cases = append(cases, c16ChangeCase{Plugin: "tdpos", N: n, N2: n})
+		if n >= 2 {
+			cases = append(cases, c16ChangeCase{Plugin: "tdpos", N: n, N2: n, Tied: true})
+		}
 		for _, n2 := range []int{n - 1, n, n + 1, n + 2} {
 			if n2 >= 1 && n+n2 < hx.RingSize-1 {
 				cases = append(cases, c16ChangeCase{Plugin: "xpoa", N: n, N2: n2})
@@ -1413,12 +1448,12 @@ func c16Changes(t *testing.T, c *hx.Collector) {
 		if !c16Mine(i) {
 			continue
 		}
-		if k.Plugin == "tdpos" {
+		if k.Plugin == "tdpos" && !k.Tied {
 			k.Below = below
 		}
 		o := c16NewObs(1)
 		f := c16RunChange(k, o)
-		if o.tags["tdpos-change:sibling-of-tip-in-next-term"] > 0 || (k.Plugin == "xpoa" && k.N != k.N2 && o.tags["xpoa-change:accepted-from-new-set"] > 0) {
+		if o.tags["tdpos-change:sibling-of-tip-in-next-term"] > 0 || o.tags["tdpos-change:accepted-from-tied-election"] > 0 || (k.Plugin == "xpoa" && k.N != k.N2 && o.tags["xpoa-change:accepted-from-new-set"] > 0) {
 			o.nontrivial(k)
 		}
 		agg.add(c, o)
@@ -1429,6 +1464,83 @@ func c16Changes(t *testing.T, c *hx.Collector) {
 	}
 	agg.flush(c)
 	c.SetExhaustive("validator-set change: tdpos n=1..4 (disjoint elected set of the same size), every millisecond from the tip to the 3rd term, candidate heights tip+1 and tip, every member of both sets and a stranger; xpoa n=1..4 -> n-1..n+2 validators, every millisecond of two rounds")
+}
+
+// ---------------------------------------------------------------------------------------------
+// the producer's own path (tdpos): CompeteMaster, then ProcessBeforeMiner for the timestamp the block will carry
+// ---------------------------------------------------------------------------------------------
+
+type c16MinerCase struct {
+	N        int   `json:"n"`
+	BlockNum int64 `json:"block_num"`
+	Period   int64 `json:"period_ms"`
+}
+
+// c16RunMiner: a node's own block is stored without CheckMinerMatch; what stands between the node and a block stamped
+// in somebody else's slot is ProcessBeforeMiner(timestamp). Oracle: ProcessBeforeMiner succeeds => the schedule names
+// this node for that very timestamp. CompeteMaster is a real-time call (it reads the wall clock and waits for the next
+// period): the clock decides which term is scanned, no assertion depends on it.
+func c16RunMiner(k c16MinerCase, o *c16Obs) *c16Fail {
+	vals := c16RingAddrs(k.N)
+	init := int64(1559021720000) * c16Ms
+	kc := c16TdposCase{Period: k.Period, BlockNum: k.BlockNum, ProposerNum: int64(k.N), Alternate: k.Period, Term: k.Period, InitNs: init}
+	leg := c16NewLedger(init)
+	inst, err := c16NewPlugin("tdpos", c16TdposConf(kc, vals), leg, hx.Ring[0])
+	if err != nil {
+		return c16Failf("setup", "%v", err)
+	}
+	vs := tdpos.VerifScheduleOf(inst)
+	master := false
+	for i := int64(0); i < 4*int64(k.N)*(k.BlockNum+1)+8 && !master; i++ {
+		master, _, _ = inst.CompeteMaster(1)
+	}
+	if !master {
+		o.tag("miner-path:never-master")
+		return nil
+	}
+	termLen := kc.Term + kc.ProposerNum*(kc.Alternate+kc.BlockNum*kc.Period)
+	now := time.Now().UnixNano() / c16Ms * c16Ms
+	for ts := now - 2*termLen*c16Ms; ts <= now+2*termLen*c16Ms; ts += c16Ms / 2 {
+		if _, _, err := inst.ProcessBeforeMiner(ts); err != nil {
+			o.eval("tdpos-miner-path:refused")
+			continue
+		}
+		o.eval("tdpos-miner-path:allowed")
+		term, pos, slot := vs.MinerScheduling(ts)
+		if slot < 0 || slot >= kc.BlockNum || pos < 0 || pos >= kc.ProposerNum || vals[pos] != vals[0] {
+			return c16Failf("miner-path", "tdpos node %q (validators %v, period %dms, block_num %d) was just told by CompeteMaster that it is the producer; ProcessBeforeMiner then allowed it a block with a timestamp %dms later that the schedule gives to (term %d, pos %d, slot %d)",
+				vals[0], vals, k.Period, k.BlockNum, (ts-now)/c16Ms, term, pos, slot)
+		}
+		o.tag("miner-path:own-slot-allowed")
+	}
+	return nil
+}
+
+func c16MinerPath(t *testing.T, c *hx.Collector) {
+	agg := c16NewAgg()
+	logged := 0
+	idx := 0
+	for _, n := range []int{2, 3} {
+		for _, bn := range []int64{1, 2, 3} {
+			idx++
+			if !c16Mine(idx) {
+				continue
+			}
+			k := c16MinerCase{N: n, BlockNum: bn, Period: 10}
+			o := c16NewObs(1)
+			f := c16RunMiner(k, o)
+			if o.tags["miner-path:own-slot-allowed"] > 0 && o.evals["tdpos-miner-path:refused"] > 0 {
+				o.nontrivial(k)
+			}
+			agg.add(c, o)
+			if f != nil {
+				c16Report(t, c, "miner-path", f, k, "", &logged)
+				agg.flush(c)
+				return
+			}
+		}
+	}
+	agg.flush(c)
 }
 
 // ---------------------------------------------------------------------------------------------
@@ -1915,7 +2027,8 @@ func c16PowChain(t *testing.T, c *hx.Collector) {
 func TestC16(t *testing.T) {
 	c := hx.NewCollector("C16", "exploration",
 		"(a) slot schedules: every configuration of a small parameter box (tdpos: period, block_num, proposer_num, alternate and term interval, schedule origin; xpoa: period, block_num, validator count) is built through the plugin constructor and minerScheduling is evaluated at every millisecond (several sub-millisecond phases) from the origin until the 4th term begins; the sequence of entitled (term,pos,slot) must be lexicographically non-decreasing, every slot one contiguous interval, and in every complete term every validator position must own exactly block_num slots. (b) acceptance: CheckMinerMatch (BFT off) for every validator, a stranger and the empty proposer on both sides of every slot boundary: accepted => proposer is the one the schedule names at the block's own timestamp; single: proposer x key x signer x signature kind x header id: accepted => configured miner and signature verifies (crypto/ecdsa); PoW: SetCompact/GetCompact against an independent base-256 reference, IsProofed => id <= target, and rapid-generated stub chains grown through the miner path with candidate blocks (bits, hash relative to target, timestamp relative to parent, signature): accepted => hash <= target of its bits, timestamp >= parent's, one bits value per parent equal to what the miner path prescribes, verdict identical on a restarted instance, and - for blocks of a generated side branch - identical on a node whose trunk is that branch (the target depends on the candidate's own ancestors only). Non-trivial = timestamp within 1 ms of a slot/term boundary; compact encoding with sign bit or size <= 3; id within 1 of the target; candidate timestamp at/before the parent's on a chain that reached a retarget; single case with at most one wrong ingredient. Distinct = hash of (configuration, boundary instant) / encoding / case input",
-		"validator sets are the configured initial ones (block height < start height + 3, so no vote / contract state is consulted)",
+		"validator sets are the configured initial ones (block height < start height + 3, so no vote / contract state is consulted), except in the validator-change sub-check: stub chains on which an election (tdpos, distinct or all-equal ballots) or an edit (xpoa) is recorded; with equal ballots only 'no two producers accepted for one instant by two nodes asked twice' is asserted, not who wins the tie",
+		"tdpos producer path: CompeteMaster (a real-time call: the wall clock picks the term that is scanned, no assertion depends on it) until the node is told it is the producer, then ProcessBeforeMiner at every half millisecond of two terms around that moment: allowed => the schedule names this node at that timestamp",
 		"chained-BFT is off (no bft_config): quorum-certificate checks belong to C14",
 		"the retarget rule itself is not prescribed by the statement: the check demands that the accepted bits are a function of the parent chain (unique, equal on miner and validator path, independent of instance state), not a particular formula",
 		"PoW leading-zero format: candidate bits above 256 are not generated (IsProofed would shift by 2^32-bits)",
@@ -1926,8 +2039,8 @@ func TestC16(t *testing.T) {
 	for _, sub := range []struct {
 		name string
 		run  func(*testing.T, *hx.Collector)
-	}{{"schedules", c16Schedules}, {"single", c16Single}, {"compact", c16Compact}, {"isproofed", c16IsProofed}, {"pow-chain", c16PowChain}, {"validator-change", c16Changes}} {
-		start := time.Now() // wall clock is only reported, never used by a generator or an oracle
+	}{{"schedules", c16Schedules}, {"single", c16Single}, {"compact", c16Compact}, {"isproofed", c16IsProofed}, {"pow-chain", c16PowChain}, {"validator-change", c16Changes}, {"miner-path", c16MinerPath}} {
+		start := time.Now() // reported only
 		sub.run(t, c)
 		t.Logf("C16 %s: %.1fs", sub.name, time.Since(start).Seconds())
 		if t.Failed() {
@@ -1958,6 +2071,13 @@ func init() {
 		}
 		return f
 	}
+	reg("miner-path", func(raw json.RawMessage) error {
+		var k c16MinerCase
+		if err := json.Unmarshal(raw, &k); err != nil {
+			return err
+		}
+		return asErr(c16RunMiner(k, c16NewObs(0)))
+	})
 	reg("tdpos-schedule", func(raw json.RawMessage) error {
 		var k c16TdposCase
 		if err := json.Unmarshal(raw, &k); err != nil {
